@@ -67,6 +67,12 @@ class Ctx:
         self.proof = r
         if not r['ok']:
             self.tie_broken.append('proof: ' + str(r['error']))
+        elif self.tier == 'thorough':
+            # independent checker over the compiled files of this property and all they depend on
+            k = coqrun.coqchk(pid)
+            self.cov['coqchk'] = dict(ok=k['ok'], axioms=k['axioms'], wall_s=round(k['wall'], 1))
+            if not k['ok']:
+                self.tie_broken.append('coqchk: ' + (k['output'][-300:] if k['axioms'] is None else 'axioms %s flags %s' % (k['axioms'], k['flags'])))
         return r
 
     def replay_exe(self):
@@ -81,7 +87,7 @@ class Ctx:
         cov = dict(self.cov)
         cov.update(dict(
             obligations=max(obligations, 1), discharged=discharged,
-            checker_cmd='make -C /verif/coq Properties_%s.vo (coqc 8.16.1, rebuilt on this run) + Print Assumptions parsed per theorem + forbidden-vernacular scan' % self.pid,
+            checker_cmd=("make -C /verif/coq Properties_%s.vo (coqc 8.16.1, rebuilt on this run) + Print Assumptions parsed per theorem + forbidden-vernacular scan" % self.pid) + ("; coqchk -o -silent on the property module and all its dependencies" if self.tier == "thorough" else ""),
             trusted_base=TRUSTED_BASE + self.assumptions,
             axioms_per_theorem={n: (b if b == 'closed' else list(b)) for n, b in pr.get('theorems', [])},
             proof_wall_s=round(pr.get('wall', 0), 1),
